@@ -85,6 +85,26 @@ func constValue(c *ssa.Const) value {
 	panic(fmt.Sprintf("constValue: %s", c))
 }
 
+// copyVal copies an aggregate value (struct, array) so that it does not share
+// storage with the original; everything else is immutable or a reference.
+func copyVal(v value) value {
+	switch v := v.(type) {
+	case structure:
+		out := make(structure, len(v))
+		for i, e := range v {
+			out[i] = copyVal(e)
+		}
+		return out
+	case array:
+		out := make(array, len(v))
+		for i, e := range v {
+			out[i] = copyVal(e)
+		}
+		return out
+	}
+	return v
+}
+
 // fitsInt returns true if x fits in type int according to sizes.
 func fitsInt(x int64, sizes types.Sizes) bool {
 	intSize := sizes.Sizeof(types.Typ[types.Int])
@@ -889,8 +909,13 @@ func callBuiltin(caller *frame, callpos token.Pos, fn *ssa.Builtin, args []value
 			arg0 := args[0].([]value)
 			return append(arg0, s.b...)
 		}
-		// append([]T, ...[]T) []T
-		return append(args[0].([]value), args[1].([]value)...)
+		// append([]T, ...[]T) []T  (elements are copied by value: structs and
+		// arrays must not alias the source's storage)
+		dst := args[0].([]value)
+		for _, e := range args[1].([]value) {
+			dst = append(dst, copyVal(e))
+		}
+		return dst
 
 	case "copy": // copy([]T, []T) int or copy([]byte, string) int
 		src := args[1]
@@ -904,7 +929,17 @@ func callBuiltin(caller *frame, callpos token.Pos, fn *ssa.Builtin, args []value
 		case sstring:
 			src = s.b
 		}
-		return copy(args[0].([]value), src.([]value))
+		d, sv := args[0].([]value), src.([]value)
+		n := len(d)
+		if len(sv) < n {
+			n = len(sv)
+		}
+		tmp := make([]value, n)
+		for k := 0; k < n; k++ {
+			tmp[k] = copyVal(sv[k])
+		}
+		copy(d, tmp)
+		return n
 
 	case "close": // close(chan T)
 		ch, _ := args[0].(*channel)
